@@ -58,6 +58,14 @@ CHECKS = {
             "two residues with 3 donor/acceptor atoms each; KD-tree, angle and torsion functions replaced by stubs / free values in the logic part; "
             "donor/acceptor/edge tables pinned in spec/tables.json",
             "symbolic execution of the real code on boolean / real proxies (own engine) + z3", "5/C03"),
+    "C10": ("E2", MC,
+            "concretising mode: every atom table of 2-3 (quick) / 2-4 atoms whose chain id, residue number, insertion code and serial range over "
+            "values on both sides of each PDB limit is a model of one z3 formula, enumerated completely by AllSAT; the real parse_cif_atoms -> "
+            "can_write_pdb / fit_to_pdb -> write_pdb -> parse_pdb_atoms pipeline (real pandas, real mmcif) runs on each and an independent oracle "
+            "checks limits, unchanged atoms, one-to-one grouping-preserving renaming, unchanged-if-fitting and the write/read-back. Partial: the "
+            "refusal half needs tables beyond any bound",
+            "pandas cannot be executed on proxies: the solver contributes exhaustive coverage of the bounded table space, the code runs natively",
+            "z3 AllSAT over the input formula + native execution with independent oracle", "5/C10"),
     "C11": ("E2", MC,
             "detect_saenger with symbolic one-letter names and class (symmetry under reversal, table agreement); lists produced by the real find_pairs "
             "on abstracted geometry (ordering, no repeats, Saenger class, BPh/BR class implied by an in-range donor->oxygen contact incl. merge rules, "
@@ -140,8 +148,6 @@ CHECKS = {
 NOT_APPLICABLE = {
     "C05": "two-run relational property over the whole parse+annotate pipeline: needs a symbolic rotation (z3 NRA answers unknown "
            "at 12 free coordinates already) and passes through scipy's KD-tree and the mmcif tokenizer, which cannot be executed symbolically",
-    "C10": "fit_to_pdb is ~30 pandas calls (groupby/apply, categoricals, index maps); its behaviour is pandas' behaviour, which no "
-           "available engine executes symbolically, and the interesting inputs (>99999 atoms, >9999 residues) are beyond any unrolling bound",
 }
 PENDING = "check not built yet in this revision (planned, see DESIGN.md section 5)"
 
